@@ -82,6 +82,7 @@ fn build_guarded<T: Sc>(
                     None => vec![],
                 },
                 fail_eval: None,
+                fail_set: None,
             }))),
         };
         let wv = w.map(DVector::from_vec);
@@ -315,8 +316,46 @@ fn emit_spec_defect_case<T: Sc>(out: &mut Out, c: &StateCase<T>, defect: usize) 
     out.end();
 }
 
+/// INCONSISTENT builder inputs (weights with N·S, N+1, N-1, 2N or 0 entries; observations with N±1 rows)
+/// on multiple-right-hand-side builders: `build()` answers with an error value, it never panics (round 13)
+fn emit_builder_misuse_case<T: Sc>(out: &mut Out, c: &StateCase<T>, variant: usize) {
+    use varpro::solvers::levmar::LevMarProblemBuilder;
+    out.begin("robustspec", &format!("{} defect=builder{}", header_common(c), variant));
+    let n = c.recipe.n();
+    let s = c.y.ncols().max(2);
+    let y = DMatrix::from_fn(if variant == 5 { n + 1 } else if variant == 6 { n.saturating_sub(1) } else { n }, s, |i, j| T::of(0.5 + i as f64 + 0.25 * j as f64));
+    let wl = match variant {
+        0 => n * s,
+        1 => n + 1,
+        2 => n.saturating_sub(1),
+        3 => 2 * n,
+        4 => 0,
+        _ => n,
+    };
+    let w = DVector::from_fn(wl, |i, _| T::of(1.0 + 0.5 * i as f64));
+    let model = wrap_any(any_model(&c.recipe, &c.init, c.built));
+    let par = c.flavour.is_par();
+    let r = guarded(move || {
+        if par {
+            LevMarProblemBuilder::mrhs_parallel(model).observations(y).weights(w).build().map(|_| ()).map_err(|e| format!("{:?}", e))
+        } else {
+            LevMarProblemBuilder::mrhs(model).observations(y).weights(w).build().map(|_| ()).map_err(|e| format!("{:?}", e))
+        }
+    });
+    match r {
+        Err(m) => out.line(&format!("outcome build panic {}", m)),
+        Ok(Err(e)) => out.line(&format!("outcome build err {}", e.split(|ch: char| !ch.is_alphanumeric()).next().unwrap_or(""))),
+        Ok(Ok(())) => out.line("outcome build ok"),
+    }
+    out.end();
+}
+
 pub fn stream(out: &mut Out, seed: u64, thorough: bool) {
     let mut rng = Rng::new(seed ^ 0xC08);
+    for i in 0..(if thorough { 140 } else { 28 }) {
+        let c = random_state_case::<f64>(&mut rng, false, i);
+        emit_builder_misuse_case::<f64>(out, &c, i % 7);
+    }
     let n = if thorough { 6000 } else { 300 };
     // invalid specifications first (round 12): 24 (thorough 120) recipes x the four defects
     for i in 0..(if thorough { 120 } else { 24 }) {
